@@ -483,11 +483,15 @@ def c04_jobs(tier, repo):
         return (_bj("C04", ["--set=single", "--bound=1"], "single hostile PDU, 1 deviation", 4)
                 + _bj("C04", ["--set=semantic", "--bound=1"], "3-PDU responses, 1 deviation", 4)
                 + _bj("C04", ["--set=pairs", "--reduced", "--bound=0"], "pairs over the reduced alphabet", 4)
-                + _bj("C04", ["--set=single", "--bound=1", "--all-cuts"], "single hostile PDU, 1 deviation, every cut position", 4))
+                + _bj("C04", ["--set=single", "--bound=1", "--all-cuts"], "single hostile PDU, 1 deviation, every cut position", 4)
+                + _bj("C04", ["--set=single", "--sockver=0", "--bound=1"], "single hostile PDU in a version-0 session, 1 deviation", 2)
+                + _bj("C04", ["--set=semantic", "--sockver=0", "--bound=1"], "3-PDU responses in a version-0 session, 1 deviation", 2))
     return (_bj("C04", ["--set=single", "--reduced", "--bound=2", "--all-cuts"], "reduced alphabet, 2 deviations, every cut", 16)
             + _bj("C04", ["--set=single", "--bound=2"], "single hostile PDU, 2 deviations", 8)
             + _bj("C04", ["--set=semantic", "--bound=2"], "3-PDU responses, 2 deviations", 8)
-            + _bj("C04", ["--set=pairs", "--bound=1"], "all pairs, 1 deviation", 32))
+            + _bj("C04", ["--set=pairs", "--bound=1"], "all pairs, 1 deviation", 32)
+            + _bj("C04", ["--set=single", "--sockver=0", "--bound=2"], "single hostile PDU in a version-0 session, 2 deviations", 4)
+            + _bj("C04", ["--set=semantic", "--sockver=0", "--bound=2"], "3-PDU responses in a version-0 session, 2 deviations", 4))
 
 
 def c14_jobs(tier, repo):
@@ -496,13 +500,21 @@ def c14_jobs(tier, repo):
                 + _bj("C14", ["--set=semantic", "--bound=1"], "3-PDU responses, 1 deviation incl. partial writes", 4)
                 + _bj("C14", ["--set=semantic", "--bound=3", "--no-recv-dev"], "3-PDU responses, up to 3 partial writes / send errors", 2)
                 + _bj("C14", ["--set=single", "--bound=3", "--no-recv-dev"], "single hostile PDU, up to 3 partial writes / send errors", 2)
+                + _bj("C14", ["--set=semantic", "--sockver=0", "--bound=1"], "3-PDU responses in a version-0 session, 1 deviation", 2)
+                + _bj("C14", ["--set=single", "--sockver=0", "--bound=1"], "single hostile PDU in a version-0 session, 1 deviation", 2)
                 + _bj("C14", ["--set=single", "--bound=0"], "single hostile PDU (msan shadow of send buffers)", 2, BYTES_MSAN)
-                + _bj("C14", ["--set=semantic", "--bound=0"], "3-PDU responses (msan shadow of send buffers)", 2, BYTES_MSAN))
+                + _bj("C14", ["--set=semantic", "--bound=0"], "3-PDU responses (msan shadow of send buffers)", 2, BYTES_MSAN)
+                + _bj("C14", ["--set=semantic", "--sockver=0", "--bound=0"], "3-PDU responses in a version-0 session (msan)", 1, BYTES_MSAN))
     return (_bj("C14", ["--set=single", "--bound=2"], "single hostile PDU, 2 deviations", 8)
             + _bj("C14", ["--set=semantic", "--bound=2"], "3-PDU responses, 2 deviations", 8)
             + _bj("C14", ["--set=pairs", "--bound=0"], "all pairs", 16)
+            + _bj("C14", ["--set=semantic", "--bound=4", "--no-recv-dev"], "3-PDU responses, up to 4 partial writes / send errors", 4)
+            + _bj("C14", ["--set=single", "--bound=4", "--no-recv-dev"], "single hostile PDU, up to 4 partial writes / send errors", 4)
+            + _bj("C14", ["--set=semantic", "--sockver=0", "--bound=2"], "3-PDU responses in a version-0 session, 2 deviations", 4)
+            + _bj("C14", ["--set=single", "--sockver=0", "--bound=2"], "single hostile PDU in a version-0 session, 2 deviations", 4)
             + _bj("C14", ["--set=single", "--bound=1"], "single (msan)", 4, BYTES_MSAN)
-            + _bj("C14", ["--set=semantic", "--bound=1"], "3-PDU responses (msan)", 4, BYTES_MSAN))
+            + _bj("C14", ["--set=semantic", "--bound=1"], "3-PDU responses (msan)", 4, BYTES_MSAN)
+            + _bj("C14", ["--set=semantic", "--sockver=0", "--bound=1"], "3-PDU responses in a version-0 session (msan)", 2, BYTES_MSAN))
 
 
 def c03_jobs(tier, repo):
@@ -531,7 +543,8 @@ SPECS["C04"] = CheckSpec(
          "version {0,1,2} x length field {0,7,8,exact-1,exact,exact+1,3248,3249,2^32-1}; four types with length fields "
          "3249 / 3256 / 3257 and their WHOLE promised body delivered; prefix PDUs with flags "
          "{0,1,2,255} x prefix/max length {0,1,32,33,128,129,255}^2; Error Reports with 25 nested-length pairs; router "
-         "keys; three-PDU responses over a 15-symbol semantic alphabet; chains of 40/140 over-long prefixes) x 4 stream "
+         "keys; three-PDU responses over a 15-symbol semantic alphabet; chains of 40/140 over-long prefixes; the single "
+         "and the three-PDU sets again in a session that runs at protocol version 0) x 4 stream "
          "tails x both entry points; on every case a DFS over deviations at every receive call (short read at 1 / n-1 "
          "or every cut position, WOULDBLOCK, ERROR, INTR, CLOSED) up to the bound; oracle: sanitizer-clean, returns, "
          "same outcome for every pure segmentation, malformed first PDU never applied and fails the exchange, "
@@ -557,7 +570,8 @@ SPECS["C14"] = CheckSpec(
          "short writes of one report); every byte handed to send() must parse into complete PDUs of the negotiated version with length "
          "field = bytes and <= 3248; the first Error Report must carry an accepted code for the class, encapsulate a "
          "byte-exact prefix of the offending PDU as received, and have consistent lengths; none after a received Error "
-         "Report; MSan jobs test the shadow of every send buffer",
+         "Report; the same in a session at protocol version 0 (12-byte End of Data, reports carry version 0); MSan "
+         "jobs test the shadow of every send buffer",
     assumptions=["accepted code sets per violation class are listed in DESIGN §5 (the statement gives no table)",
                  "the obligation to send a report is judged on undisturbed runs of streams whose first violation is "
                  "unambiguous; the shape of whatever is sent is judged on every run"],
@@ -574,9 +588,10 @@ SPECS["C03"] = CheckSpec(
     "C03", c03_jobs,
     rule="start state reached by a real initial synchronisation through the real FSM thread (socket holds O = 3 prefixes "
          "+ 1 key; another source holds overlapping records in the same tables); then EVERY response of the family "
-         "{delta, reload after Cache Reset} x PDU sequences up to the length bound over 22 symbols (announce / withdraw "
+         "{delta, reload after Cache Reset} x PDU sequences up to the length bound over 25 symbols (announce / withdraw "
          "of present / absent IPv4, IPv6 and router-key records incl. the twin of the other source's record, flags=2, "
-         "Serial Notify, Reset Query, Cache Reset, Cache Response, bad-length PDU, Error Report, wrong-version PDU) x 5 "
+         "odd invalid flags on a router key / IPv4 / IPv6 PDU, Serial Notify, Reset Query, Cache Reset, Cache Response, "
+         "bad-length PDU, Error Report, wrong-version PDU) x 5 "
          "terminators (End of Data ok / foreign session, timeout, transport error, close), plus one transport fault at "
          "every receive call of the response; length-4 (thorough 5) responses over the prefix symbols and over a 7-symbol "
          "alphabet mixing the four router-key symbols with prefix symbols; a second family ('bulk') over 28 symbols adds blocks of 100 / 101 / 201 "
